@@ -408,4 +408,12 @@ def main(tier, replay=None):
     })
     res.assumptions = ["validity is the reference's (Mini/Sem.v) notion on the MiniVHDL fragment: listed in the header of Sem.v",
                        "severity = default SeverityMap of vhdl_lang (data/error_codes.rs); linters off"]
+    # the run directory is only kept for inspection when something was reported
+    if not res.violations:
+        for fn in os.listdir(d):
+            if fn.startswith(("bundle", "req_", "impl.out")):
+                try:
+                    os.remove(os.path.join(d, fn))
+                except OSError:
+                    pass
     return res.finish()
